@@ -617,10 +617,10 @@ def rearranged(draw, e, kind, depth=0):
 @st.composite
 def flat_rendering(draw, p, kind):
     """A flat sum-of-products rendering of polynomial p (dict) in drawn order / association; None if impossible."""
+    monos = list(sorted(p.items()))[:14]
+    monos = draw(st.permutations(monos))
     if len(p) > 14:
         return None
-    monos = list(sorted(p.items()))
-    monos = draw(st.permutations(monos))
     terms = []
     for m, c in monos:
         factors = []
